@@ -7,6 +7,7 @@ import Zc.Proofs.LinkBridgeK3b
 import Zc.Proofs.LinkBridgeK5
 import Zc.Proofs.LinkBridgeK4
 import Zc.Proofs.LinkNaming
+import Zc.Proofs.LinkBridgeCheck
 import Zc.GenFacts.Link
 /-! # C07 — end-to-end discovery converges to the set of registered services
 
@@ -791,5 +792,614 @@ example : K4 Cfg.paper tr 4600 = true := C07_K4_from_C03_C11_C12_partial id tr 4
 example : K4 Cfg.paper tr 4600 = true := by decide
 
 end C07ex4
+
+/-! A fifth run is the **joint non-vacuity example of `C07_convergence_from_models_partial`**: one registering host (0) and one browsing
+host (1) that sends its own questions, and *every* hypothesis of `C07_ContractsFromModels` holds of it at once — WF, K7, K3b by
+`decide`; `Hosts` (host 0 is a run of the C08/C09 machine built with `mkRunD` — register, three announcement steps, the unicast
+answer — with `Fair`, `Spaced`, `DistinctCalls`, `Open`, `Disc*` evaluated by the checkers of `Proofs/LinkBridgeCheck.lean`; the
+other hosts register nothing: the empty run, which is admissible because the machine only owns the sends that carry a pointer
+record); `BrowserRun` (C10's scheduler, start-up queries on the wire as C13 says); `Responders` (host 0: the accepted reply-model
+history of its seven deliveries, candidates from C03 on the registry after `register z`, the QU question answered by unicast because
+the cache saw the pointer within a quarter of its TTL; host 1: empty registry, no strategies); `CacheRun` (the C04 browser over the
+cache that ingests the unicast answer at 2070 ms).  An earlier version of `HostRun.sendsIn` claimed *all* sends of a host for the
+C08 machine, which contradicted `BrowserRun` as soon as a browser existed (independent review, round 2): this example is what keeps
+that from recurring.  Names are numbered by the injective `Bridge.encS`. -/
+namespace C07ex5
+open Zc.Bridge
+
+def T : String := "_x._tcp.local."
+def A : String := "a._x._tcp.local."
+/-- the registered service as the C08/C09 machine holds it … -/
+def z0 : Register.Svc :=
+  { type := T, name := A, server := "h0.local.", port := 80, weight := 0, priority := 0, text := [], v4 := [[10, 0, 0, 1]], v6 := [],
+    hostTtl := 120, otherTtl := 4500 }
+/-- … and as C03's registry holds it -/
+def z : Zc.Svc :=
+  { type := T, name := A, server := "h0.local.", port := 80, weight := 0, priority := 0, text := [], hostTtl := 120, otherTtl := 4500,
+    v4 := [[10, 0, 0, 1]], v6 := [] }
+def N0 : Naming := ⟨0, encS, encS⟩
+def N1 : Naming := ⟨1, encS, encS⟩
+def s : Link.Svc := ⟨0, encS T, encS A⟩
+def b : Br := ⟨1, encS T, 0⟩
+def ann : List Item := [.ptr s 4500 true]
+def q (k : List Link.Svc) (qu : Bool) : List Item := [.query (encS T) k qu]
+
+/-- host 0 registers `a._x._tcp.local.` at 0 (announcements at 350 / 575 / 800 ms, looped back); host 1 comes up at 2 s, after every
+announcement, and starts a browser: its QU question at 2050 ms reaches host 0 at 2060 ms and is answered by unicast (host 0 saw its own
+announcement 1.26 s ago: within a quarter of the TTL), Added at 2070 ms; its QM questions at 3050 / 7050 / 16050 ms list the instance -/
+def tr : Trace :=
+  [⟨0, .up 0⟩, ⟨0, .reg s⟩,
+   ⟨350, .send 0 0 none ann⟩, ⟨350, .dlv 0 0 0 true ann⟩,
+   ⟨575, .send 0 1 none ann⟩, ⟨580, .dlv 1 0 0 true ann⟩,
+   ⟨800, .send 0 2 none ann⟩, ⟨800, .dlv 2 0 0 true ann⟩,
+   ⟨2000, .up 1⟩, ⟨2000, .browse b⟩,
+   ⟨2050, .send 1 3 none (q [] true)⟩, ⟨2050, .dlv 3 1 1 true (q [] true)⟩, ⟨2060, .dlv 3 1 0 true (q [] true)⟩,
+   ⟨2060, .send 0 4 (some 1) ann⟩, ⟨2070, .dlv 4 0 1 false ann⟩, ⟨2070, .added b s⟩,
+   ⟨3050, .send 1 5 none (q [s] false)⟩, ⟨3050, .dlv 5 1 0 true (q [s] false)⟩, ⟨3050, .dlv 5 1 1 true (q [s] false)⟩,
+   ⟨7050, .send 1 6 none (q [s] false)⟩, ⟨7050, .dlv 6 1 0 true (q [s] false)⟩, ⟨7100, .dlv 6 1 1 true (q [s] false)⟩,
+   ⟨16050, .send 1 7 none (q [s] false)⟩, ⟨16050, .dlv 7 1 0 true (q [s] false)⟩, ⟨16050, .dlv 7 1 1 true (q [s] false)⟩]
+
+theorem contracts : C07_Contracts tr 20000 :=
+  ⟨by decide, by decide, by decide, by decide, by decide, by decide, by decide, by decide, by decide⟩
+
+/-! #### host 0 as a run of the C08/C09 machine -/
+
+def sched0 : List (Int × Goodbye.Block × Option Nat) :=
+  [(350, .register z0 1 350, none), (350, .task 1 none true 350, none), (575, .task 1 none true 575, none),
+   (800, .task 1 none true 800, none), (2060, .answer (Goodbye.recs z0), some 1)]
+
+def steps0 : List Step := (mkRunD id Goodbye.Host.init 0 sched0).getD []
+
+theorem steps0_run : IsRun id Goodbye.Host.init 0 steps0 := by
+  apply mkRunD_isRun id sched0
+  unfold steps0
+  cases h : mkRunD id Goodbye.Host.init 0 sched0 with
+  | some l => rfl
+  | none =>
+    exfalso
+    have : (mkRunD id Goodbye.Host.init 0 sched0).isSome = true := by decide
+    rw [h] at this; cases this
+
+theorem sends0 : sends (events id N0 steps0) =
+    [⟨350, 0, 0, none, ann⟩, ⟨575, 0, 0, none, ann⟩, ⟨800, 0, 0, none, ann⟩, ⟨2060, 0, 0, some 1, ann⟩] := by decide
+theorem regs0 : regs (events id N0 steps0) = [(0, s)] := by decide
+theorem upds0 : upds (events id N0 steps0) = [] := by decide
+theorem unregs0 : unregs (events id N0 steps0) = [] := by decide
+
+
+theorem sends_of_host0 {sd : SendE} (h : sd ∈ sends tr) (hh : sd.h = 0) :
+    sd = ⟨350, 0, 0, none, ann⟩ ∨ sd = ⟨575, 0, 1, none, ann⟩ ∨ sd = ⟨800, 0, 2, none, ann⟩ ∨ sd = ⟨2060, 0, 4, some 1, ann⟩ := by
+  have hs : sends tr = [⟨350, 0, 0, none, ann⟩, ⟨575, 0, 1, none, ann⟩, ⟨800, 0, 2, none, ann⟩, ⟨2050, 1, 3, none, q [] true⟩,
+      ⟨2060, 0, 4, some 1, ann⟩, ⟨3050, 1, 5, none, q [s] false⟩, ⟨7050, 1, 6, none, q [s] false⟩, ⟨16050, 1, 7, none, q [s] false⟩] := by
+    decide
+  rw [hs] at h
+  simp only [List.mem_cons, List.not_mem_nil, or_false] at h
+  rcases h with rfl | rfl | rfl | rfl | rfl | rfl | rfl | rfl <;> simp at hh <;> simp
+
+/-- host 0's pointer-carrying sends, registrations … are those of the run `steps0` -/
+theorem hostRun0 : HostRun id tr 20000 N0 steps0 0 where
+  tyInj := encS_inj
+  svInj := encS_inj
+  run := steps0_run
+  disc := by decide
+  spaced := spaced_of_spacedB id N0 [] steps0 (by decide)
+  distinct := distinctCalls_of_B id N0 steps0 (by decide)
+  fair := fair_of_fairB steps0 20000 (by decide)
+  opened := open_of_openB steps0 (by decide)
+  sendsIn := by
+    intro sd hsd hh _
+    rw [sends0]
+    rcases sends_of_host0 hsd hh with rfl | rfl | rfl | rfl
+    · exact ⟨_, by simp, rfl, rfl, rfl⟩
+    · exact ⟨⟨575, 0, 0, none, ann⟩, by simp, rfl, rfl, rfl⟩
+    · exact ⟨⟨800, 0, 0, none, ann⟩, by simp, rfl, rfl, rfl⟩
+    · exact ⟨⟨2060, 0, 0, some 1, ann⟩, by simp, rfl, rfl, rfl⟩
+  sendsOut := by
+    intro sd' hsd'
+    rw [sends0] at hsd'
+    simp only [List.mem_cons, List.not_mem_nil, or_false] at hsd'
+    rcases hsd' with rfl | rfl | rfl | rfl
+    · exact ⟨⟨350, 0, 0, none, ann⟩, by decide, rfl, rfl, rfl, rfl⟩
+    · exact ⟨⟨575, 0, 1, none, ann⟩, by decide, rfl, rfl, rfl, rfl⟩
+    · exact ⟨⟨800, 0, 2, none, ann⟩, by decide, rfl, rfl, rfl, rfl⟩
+    · exact ⟨⟨2060, 0, 4, some 1, ann⟩, by decide, rfl, rfl, rfl, rfl⟩
+  regsIn := by
+    intro x hx _
+    rw [regs0]
+    have : regs tr = [(0, s)] := by decide
+    rw [this] at hx; exact hx
+  regsOut := by
+    intro x hx
+    rw [regs0] at hx
+    have : regs tr = [(0, s)] := by decide
+    rw [this]; exact hx
+  updsIn := by
+    intro x hx _
+    have : upds tr = [] := by decide
+    rw [this] at hx; cases hx
+  updsOut := by intro x hx; rw [upds0] at hx; cases hx
+  unregsIn := by
+    intro x hx _
+    have : unregs tr = [] := by decide
+    rw [this] at hx; cases hx
+  unregsOut := by intro x hx; rw [unregs0] at hx; cases hx
+
+/-- a host that registers nothing: the empty run (its sends carry questions only) -/
+theorem hostRunIdle (hid : Nat) (h0 : hid ≠ 0) : HostRun id tr 20000 ⟨hid, encS, encS⟩ [] 0 where
+  tyInj := encS_inj
+  svInj := encS_inj
+  run := IsRun.nil _ _
+  disc := by intro st hst; cases hst
+  spaced := by intro pre st post h; cases pre <;> simp at h
+  distinct := by intro pre st post h; cases pre <;> simp at h
+  fair := ⟨by intro pre st post h; cases pre <;> simp at h, by intro pre st post h; cases pre <;> simp at h⟩
+  opened := by intro st hst; cases hst
+  sendsIn := by
+    intro sd hsd hh hne
+    exfalso
+    have hs : sends tr = [⟨350, 0, 0, none, ann⟩, ⟨575, 0, 1, none, ann⟩, ⟨800, 0, 2, none, ann⟩, ⟨2050, 1, 3, none, q [] true⟩,
+        ⟨2060, 0, 4, some 1, ann⟩, ⟨3050, 1, 5, none, q [s] false⟩, ⟨7050, 1, 6, none, q [s] false⟩, ⟨16050, 1, 7, none, q [s] false⟩] := by
+      decide
+    rw [hs] at hsd
+    simp only [List.mem_cons, List.not_mem_nil, or_false] at hsd
+    rcases hsd with rfl | rfl | rfl | rfl | rfl | rfl | rfl | rfl <;>
+      first
+        | exact h0 hh.symm
+        | exact hne (by decide)
+  sendsOut := by intro sd' hsd'; simp [events_nil, sends] at hsd'
+  regsIn := by
+    intro x hx hown
+    have : regs tr = [(0, s)] := by decide
+    rw [this] at hx
+    simp only [List.mem_singleton] at hx
+    subst hx
+    exact absurd hown.symm h0
+  regsOut := by intro x hx; simp [events_nil, regs] at hx
+  updsIn := by
+    intro x hx _
+    have : upds tr = [] := by decide
+    rw [this] at hx; cases hx
+  updsOut := by intro x hx; simp [events_nil, upds] at hx
+  unregsIn := by
+    intro x hx _
+    have : unregs tr = [] := by decide
+    rw [this] at hx; cases hx
+  unregsOut := by intro x hx; simp [events_nil, unregs] at hx
+
+theorem hosts : Hosts id tr 20000 := by
+  intro hid
+  by_cases h0 : hid = 0
+  · subst h0; exact ⟨N0, steps0, 0, rfl, hostRun0⟩
+  · exact ⟨⟨hid, encS, encS⟩, [], 0, rfl, hostRunIdle hid h0⟩
+
+
+/-! #### the browser as a history of C10's scheduler -/
+
+theorem browserRun : Bridge.BrowserRun tr 20000 2000 b := by
+  have h : (Sched2.exec2 (C10.browserCfg [T] 10000 none) {} 0
+      ([] ++ (2000, Sched.Op.start 50) :: [(2050, .fire false), (3050, .fire false), (7050, .fire false), (16050, .fire false),
+        (26050, .fire false)])).toOption.map (·.2) =
+      some [⟨2050, true, some true, [T]⟩, ⟨3050, false, none, [T]⟩, ⟨7050, false, none, [T]⟩, ⟨16050, false, none, [T]⟩] := by decide
+  cases hx : Sched2.exec2 (C10.browserCfg [T] 10000 none) {} 0
+      ([] ++ (2000, Sched.Op.start 50) :: [(2050, .fire false), (3050, .fire false), (7050, .fire false), (16050, .fire false),
+        (26050, .fire false)]) with
+  | error e => rw [hx] at h; cases h
+  | ok r =>
+    obtain ⟨s', outs⟩ := r
+    rw [hx] at h
+    simp only [Except.toOption, Option.map_some, Option.some.injEq] at h
+    subst h
+    refine ⟨⟨[T], T, 10000, 0, [], 50, _, s', _, by decide, ?_, ?_, hx, by decide, ?_⟩⟩
+    · intro e he; cases he
+    · unfold C10.Active; decide
+    · unfold Bridge.WireAsk; decide
+
+theorem browsers : ∀ x ∈ browses tr, neverClosed tr x.2.host = true → Bridge.BrowserRun tr 20000 x.1 x.2 := by
+  intro x hx _
+  have : browses tr = [(2000, b)] := by decide
+  rw [this] at hx
+  simp only [List.mem_singleton] at hx
+  subst hx
+  exact browserRun
+
+
+/-! #### the responders: host 0 (one registered service), host 1 (none) -/
+
+open Zc.Reply in
+/-- the table of record objects: PTR, SRV, TXT, A, NSEC of the service -/
+def tbl : List Rec := [RespSpec.ptrOf z, RespSpec.srvOf z, RespSpec.txtOf z] ++ RespSpec.addrsOf z ++ RespSpec.nsecOf z
+def ops0 : List RegOp := [.register z]
+def qsQU : List Question := [⟨T, 12, 1, true⟩]
+def qsQM : List Question := [⟨T, 12, 1, false⟩]
+/-- the known answer the browser lists from 3050 ms on: the pointer, with more than half of its TTL left -/
+def kn : Rec := ⟨T, 12, 1, false, 4498, 0, .ptr A⟩
+/-- the QU question at 2060 ms as the reply model reads it: one strategy, the pointer with SRV, TXT, A, NSEC as additionals -/
+def p1 : Reply.Pkt := { dataId := 3, now := 2060, id := 0, flags := 0, numAuth := 0, nq := 1, q0type := 12,
+                        items := [{ qu := true, cands := [{ id := 0, ttl := 4500, adds := [1, 2, 3, 4], sup := false }] }], known := [] }
+/-- a QM question listing the pointer: the strategy's answer is suppressed inside C03's `Strategy.answer` -/
+def p2 (d : Nat) (now : Int) : Reply.Pkt :=
+  { dataId := d, now := now, id := 0, flags := 0, numAuth := 0, nq := 1, q0type := 12, items := [{ qu := false, cands := [] }],
+    known := [] }
+/-- a question on a host with an empty registry: no strategy -/
+def pE (d : Nat) (now : Int) : Reply.Pkt :=
+  { dataId := d, now := now, id := 0, flags := 0, numAuth := 0, nq := 1, q0type := 12, items := [], known := [] }
+
+def content (d : Nat) : List Item :=
+  if d = 10 then ann else if d = 3 then q [] true else if d = 5 ∨ d = 6 ∨ d = 7 then q [s] false else if d = 20 then ann else []
+
+def ks0 : List KEv :=
+  [.blk (.rx 350 0 5353 10 100 false .response [] []), .blk (.rx 580 0 5353 10 100 false .response [] []),
+   .blk (.rx 800 0 5353 10 100 false .response [] []),
+   .blk (.rx 2060 1 5353 3 40 true (.query p1) [(0, { created := 800, ttl := 4500 })] []),
+   .blk (.rx 3050 1 5353 5 60 false (.query (p2 5 3050)) [] []), .blk (.rx 7050 1 5353 6 60 false (.query (p2 6 7050)) [] []),
+   .blk (.rx 16050 1 5353 7 60 false (.query (p2 7 16050)) [] []), .purge 20001 []]
+
+def rt0 : List (Reply.Host × KEv × Reply.StepOut) := match krun {} 0 ks0 with | .ok (_, _, rt) => rt | .error _ => []
+def hEnd0 : Reply.Host := match krun {} 0 ks0 with | .ok (h, _, _) => h | .error _ => {}
+def cEnd0 : Int := match krun {} 0 ks0 with | .ok (_, c, _) => c | .error _ => 0
+
+theorem krun0 : krun {} 0 ks0 = .ok (hEnd0, cEnd0, rt0) := by
+  unfold hEnd0 cEnd0 rt0
+  cases h : krun {} 0 ks0 with
+  | ok v => rfl
+  | error m =>
+    exfalso
+    have : (krun {} 0 ks0).toBool = true := by decide
+    rw [h] at this
+    cases this
+
+theorem run0 : KRun {} 0 ks0 hEnd0 cEnd0 rt0 := KRun.of_krun _ _ _ _ _ _ krun0
+
+theorem rt0_view : rt0.map (fun x => (x.2.1.time, x.2.2.outs)) =
+    [(350, []), (580, []), (800, []), (2060, [Reply.Out.ucast 1 5353 0 0 [0] [1, 2, 3, 4]]), (3050, []), (7050, []), (16050, []),
+     (20001, [])] := by decide
+
+theorem fromRegistryQU : FromRegistry id 4500 tbl p1 ops0 qsQU [] where
+  clean := by decide
+  addr := by unfold AllAddr; decide
+  items := rfl
+  known := rfl
+  inTable := by decide
+
+theorem fromRegistryQM (d : Nat) (now : Int) : FromRegistry id 4500 tbl (p2 d now) ops0 qsQM [kn] where
+  clean := by decide
+  addr := by unfold AllAddr; decide
+  items := rfl
+  known := rfl
+  inTable := by decide
+
+theorem svcs_tr : svcsOf tr = [s] := by decide
+
+theorem itemOf0 (t : Int) (hasQu : Bool) (qs : List Question) (k : List Rec) (known : List Link.Svc) (qu : Bool)
+    (hq : ⟨T, 12, 1, qu⟩ ∈ qs) (hqu : qu = true → hasQu = true) (hk : ∀ o ∈ k, s ∈ known) :
+    ItemOf id tr N0 4500 t hasQu ops0 qs k (encS T) known qu where
+  quFlag := hqu
+  question := ⟨⟨T, 12, 1, qu⟩, hq, rfl, by simp [N0], rfl⟩
+  knownListed := by
+    intro o ho alias _ _ s' hs' _ _ _
+    rw [svcs_tr] at hs'
+    simp only [List.mem_singleton] at hs'
+    subst hs'
+    exact hk o ho
+  registered := by
+    intro s' hs' _ _ _
+    rw [svcs_tr] at hs'
+    simp only [List.mem_singleton] at hs'
+    subst hs'
+    exact ⟨z, by decide, rfl, by decide, by decide⟩
+
+theorem mem_ks0 {k : KEv} (h : k ∈ ks0) :
+    k = .blk (.rx 350 0 5353 10 100 false .response [] []) ∨ k = .blk (.rx 580 0 5353 10 100 false .response [] []) ∨
+    k = .blk (.rx 800 0 5353 10 100 false .response [] []) ∨
+    k = .blk (.rx 2060 1 5353 3 40 true (.query p1) [(0, { created := 800, ttl := 4500 })] []) ∨
+    k = .blk (.rx 3050 1 5353 5 60 false (.query (p2 5 3050)) [] []) ∨ k = .blk (.rx 7050 1 5353 6 60 false (.query (p2 6 7050)) [] []) ∨
+    k = .blk (.rx 16050 1 5353 7 60 false (.query (p2 7 16050)) [] []) ∨ k = .purge 20001 [] := by
+  simpa [ks0] using h
+
+theorem dlvs_tr : dlvs tr =
+    [⟨350, 0, 0, 0, true, ann⟩, ⟨580, 1, 0, 0, true, ann⟩, ⟨800, 2, 0, 0, true, ann⟩, ⟨2050, 3, 1, 1, true, q [] true⟩,
+     ⟨2060, 3, 1, 0, true, q [] true⟩, ⟨2070, 4, 0, 1, false, ann⟩, ⟨3050, 5, 1, 0, true, q [s] false⟩, ⟨3050, 5, 1, 1, true, q [s] false⟩,
+     ⟨7050, 6, 1, 0, true, q [s] false⟩, ⟨7100, 6, 1, 1, true, q [s] false⟩, ⟨16050, 7, 1, 0, true, q [s] false⟩,
+     ⟨16050, 7, 1, 1, true, q [s] false⟩] := by decide
+
+theorem responderRun0 : ResponderRun id tr 20000 N0 4500 tbl (fun a => a) content 0 ks0 hEnd0 cEnd0 rt0 := by
+  have hev := run0.evs
+  have mem_ev : ∀ x ∈ rt0, x.2.1 ∈ ks0 := fun x hx => by rw [← hev]; exact List.mem_map_of_mem hx
+  have ex_ev : ∀ k ∈ ks0, ∃ x ∈ rt0, x.2.1 = k := by
+    intro k hk
+    rw [← hev, List.mem_map] at hk
+    exact hk
+  refine { tyInj := encS_inj, svInj := encS_inj, run := run0, covers := by decide, noTC := ?_, purgeKeeps := ?_, rx := ?_,
+           isQuery := ?_, query := ?_, outs := ?_, purge := ?_ }
+  · intro t addr port dataId size hasQu p' seen draws hm
+    rcases mem_ks0 hm with h | h | h | h | h | h | h | h <;> cases h <;> decide
+  · intro x hx t W hxe d g _ e _ _ i _
+    have hk := mem_ev x hx
+    rw [hxe] at hk
+    rcases mem_ks0 hk with h | h | h | h | h | h | h | h <;> cases h
+    simp
+  · intro e he heh
+    rw [dlvs_tr] at he
+    simp only [List.mem_cons, List.not_mem_nil, or_false] at he
+    rcases he with rfl | rfl | rfl | rfl | rfl | rfl | rfl | rfl | rfl | rfl | rfl | rfl <;> first
+      | (exfalso; revert heh; decide)
+      | (obtain ⟨x, hx, hxe⟩ := ex_ev (.blk (.rx 350 0 5353 10 100 false .response [] [])) (by simp [ks0])
+         exact ⟨x, hx, 0, 5353, 10, 100, false, .response, [], [], hxe, rfl, rfl, by decide⟩)
+      | (obtain ⟨x, hx, hxe⟩ := ex_ev (.blk (.rx 580 0 5353 10 100 false .response [] [])) (by simp [ks0])
+         exact ⟨x, hx, 0, 5353, 10, 100, false, .response, [], [], hxe, rfl, rfl, by decide⟩)
+      | (obtain ⟨x, hx, hxe⟩ := ex_ev (.blk (.rx 800 0 5353 10 100 false .response [] [])) (by simp [ks0])
+         exact ⟨x, hx, 0, 5353, 10, 100, false, .response, [], [], hxe, rfl, rfl, by decide⟩)
+      | (obtain ⟨x, hx, hxe⟩ := ex_ev (.blk (.rx 2060 1 5353 3 40 true (.query p1) [(0, { created := 800, ttl := 4500 })] []))
+           (by simp [ks0])
+         exact ⟨x, hx, 1, 5353, 3, 40, true, .query p1, _, [], hxe, rfl, rfl, by decide⟩)
+      | (obtain ⟨x, hx, hxe⟩ := ex_ev (.blk (.rx 3050 1 5353 5 60 false (.query (p2 5 3050)) [] [])) (by simp [ks0])
+         exact ⟨x, hx, 1, 5353, 5, 60, false, .query (p2 5 3050), [], [], hxe, rfl, rfl, by decide⟩)
+      | (obtain ⟨x, hx, hxe⟩ := ex_ev (.blk (.rx 7050 1 5353 6 60 false (.query (p2 6 7050)) [] [])) (by simp [ks0])
+         exact ⟨x, hx, 1, 5353, 6, 60, false, .query (p2 6 7050), [], [], hxe, rfl, rfl, by decide⟩)
+      | (obtain ⟨x, hx, hxe⟩ := ex_ev (.blk (.rx 16050 1 5353 7 60 false (.query (p2 7 16050)) [] [])) (by simp [ks0])
+         exact ⟨x, hx, 1, 5353, 7, 60, false, .query (p2 7 16050), [], [], hxe, rfl, rfl, by decide⟩)
+  · intro x hx t addr port dataId size hasQu kind seen draws hxe ty known qu hq
+    have hk := mem_ev x hx
+    rw [hxe] at hk
+    rcases mem_ks0 hk with h | h | h | h | h | h | h | h <;> cases h <;> first
+      | (exfalso; revert hq; simp [content, ann]; done)
+      | exact ⟨_, rfl⟩
+  · intro x hx t addr port dataId size hasQu p' seen draws hxe
+    have hk := mem_ev x hx
+    rw [hxe] at hk
+    rcases mem_ks0 hk with h | h | h | h | h | h | h | h <;> cases h
+    · refine ⟨ops0, qsQU, [], fromRegistryQU, ?_⟩
+      intro ty known qu hq
+      have : ty = encS T ∧ known = [] ∧ qu = true := by simpa [content, q] using hq
+      obtain ⟨rfl, rfl, rfl⟩ := this
+      exact itemOf0 2060 true qsQU [] [] true (by simp [qsQU]) (fun _ => rfl) (by intro o ho; cases ho)
+    all_goals
+      refine ⟨ops0, qsQM, [kn], fromRegistryQM _ _, ?_⟩
+      intro ty known qu hq
+      have : ty = encS T ∧ known = [s] ∧ qu = false := by simpa [content, q] using hq
+      obtain ⟨rfl, rfl, rfl⟩ := this
+      exact itemOf0 _ false qsQM [kn] [s] false (by simp [qsQM]) (by intro h; cases h) (by intro o _; simp)
+  · intro x hx _ o ho
+    have hv := List.mem_map_of_mem (f := fun x : Reply.Host × KEv × Reply.StepOut => (x.2.1.time, x.2.2.outs)) hx
+    rw [rt0_view] at hv
+    simp only [List.mem_cons, Prod.mk.injEq, List.not_mem_nil, or_false] at hv
+    have one : x.2.1.time = 2060 ∧ x.2.2.outs = [Reply.Out.ucast 1 5353 0 0 [0] [1, 2, 3, 4]] := by
+      rcases hv with ⟨_, h2⟩ | ⟨_, h2⟩ | ⟨_, h2⟩ | ⟨h1, h2⟩ | ⟨_, h2⟩ | ⟨_, h2⟩ | ⟨_, h2⟩ | ⟨_, h2⟩
+      · rw [h2] at ho; cases ho
+      · rw [h2] at ho; cases ho
+      · rw [h2] at ho; cases ho
+      · exact ⟨h1, h2⟩
+      · rw [h2] at ho; cases ho
+      · rw [h2] at ho; cases ho
+      · rw [h2] at ho; cases ho
+      · rw [h2] at ho; cases ho
+    obtain ⟨h1, h2⟩ := one
+    rw [h2] at ho
+    simp only [List.mem_singleton] at ho
+    subst ho
+    refine ⟨⟨2060, 0, 4, some 1, ann⟩, by decide,
+      ⟨0x8400, [], [RespSpec.ptrOf z], [], [RespSpec.srvOf z, RespSpec.txtOf z] ++ RespSpec.addrsOf z ++ RespSpec.nsecOf z⟩,
+      rfl, h1.symm, rfl, by decide, ⟨by decide, by decide⟩, by decide⟩
+  · intro x hx t W hxe i hi
+    have hk := mem_ev x hx
+    rw [hxe] at hk
+    rcases mem_ks0 hk with h | h | h | h | h | h | h | h <;> cases h
+    cases hi
+
+
+def ks1 : List KEv :=
+  [.blk (.rx 2050 1 5353 3 40 true (.query (pE 3 2050)) [] []), .blk (.rx 2070 0 5353 20 100 false .response [] []),
+   .blk (.rx 3050 1 5353 5 60 false (.query (pE 5 3050)) [] []), .blk (.rx 7100 1 5353 6 60 false (.query (pE 6 7100)) [] []),
+   .blk (.rx 16050 1 5353 7 60 false (.query (pE 7 16050)) [] []), .purge 20001 []]
+
+def rt1 : List (Reply.Host × KEv × Reply.StepOut) := match krun {} 0 ks1 with | .ok (_, _, rt) => rt | .error _ => []
+def hEnd1 : Reply.Host := match krun {} 0 ks1 with | .ok (h, _, _) => h | .error _ => {}
+def cEnd1 : Int := match krun {} 0 ks1 with | .ok (_, c, _) => c | .error _ => 0
+
+theorem krun1 : krun {} 0 ks1 = .ok (hEnd1, cEnd1, rt1) := by
+  unfold hEnd1 cEnd1 rt1
+  cases h : krun {} 0 ks1 with
+  | ok v => rfl
+  | error m =>
+    exfalso
+    have : (krun {} 0 ks1).toBool = true := by decide
+    rw [h] at this
+    cases this
+
+theorem run1 : KRun {} 0 ks1 hEnd1 cEnd1 rt1 := KRun.of_krun _ _ _ _ _ _ krun1
+
+theorem rt1_outs : rt1.map (fun x => x.2.2.outs) = [[], [], [], [], [], []] := by decide
+
+theorem fromRegistryE (d : Nat) (now : Int) (qs : List Question) (k : List Rec) (hq : ∀ q ∈ qs, q.type = 12 ∧ q.name = T) :
+    FromRegistry id 4500 [] (pE d now) [] qs k where
+  clean := by decide
+  addr := by intro x hx; cases hx
+  items := by
+    induction qs with
+    | nil => rfl
+    | cons q0 r ih =>
+      obtain ⟨h1, h2⟩ := hq q0 (by simp)
+      have hr := ih (fun q' hq' => hq q' (List.mem_cons_of_mem _ hq'))
+      obtain ⟨n, ty, c, u⟩ := q0
+      simp only at h1 h2
+      subst h1 h2
+      simp only [itemsOfQuestions, hr]
+      rfl
+  known := rfl
+  inTable := by
+    intro q0 hq0 st hst
+    obtain ⟨h1, h2⟩ := hq q0 hq0
+    obtain ⟨n, ty, c, u⟩ := q0
+    simp only at h1 h2
+    subst h1 h2
+    have hnil : pureStrategies id (Registry.run id 4500 []) ⟨T, 12, c, u⟩ = [] := by rfl
+    rw [hnil] at hst
+    cases hst
+
+theorem itemOf1 (t : Int) (hasQu : Bool) (qs : List Question) (k : List Rec) (known : List Link.Svc) (qu : Bool)
+    (hq : ⟨T, 12, 1, qu⟩ ∈ qs) (hqu : qu = true → hasQu = true) :
+    ItemOf id tr N1 4500 t hasQu [] qs k (encS T) known qu where
+  quFlag := hqu
+  question := ⟨⟨T, 12, 1, qu⟩, hq, rfl, by simp [N1], rfl⟩
+  knownListed := by
+    intro o _ alias _ _ s' hs' hown
+    rw [svcs_tr] at hs'
+    simp only [List.mem_singleton] at hs'
+    subst hs'
+    cases hown
+  registered := by
+    intro s' hs' hown
+    rw [svcs_tr] at hs'
+    simp only [List.mem_singleton] at hs'
+    subst hs'
+    cases hown
+
+theorem mem_ks1 {k : KEv} (h : k ∈ ks1) :
+    k = .blk (.rx 2050 1 5353 3 40 true (.query (pE 3 2050)) [] []) ∨ k = .blk (.rx 2070 0 5353 20 100 false .response [] []) ∨
+    k = .blk (.rx 3050 1 5353 5 60 false (.query (pE 5 3050)) [] []) ∨ k = .blk (.rx 7100 1 5353 6 60 false (.query (pE 6 7100)) [] []) ∨
+    k = .blk (.rx 16050 1 5353 7 60 false (.query (pE 7 16050)) [] []) ∨ k = .purge 20001 [] := by
+  simpa [ks1] using h
+
+theorem responderRun1 : ResponderRun id tr 20000 N1 4500 [] (fun a => a) content 0 ks1 hEnd1 cEnd1 rt1 := by
+  have hev := run1.evs
+  have mem_ev : ∀ x ∈ rt1, x.2.1 ∈ ks1 := fun x hx => by rw [← hev]; exact List.mem_map_of_mem hx
+  have ex_ev : ∀ k ∈ ks1, ∃ x ∈ rt1, x.2.1 = k := by
+    intro k hk
+    rw [← hev, List.mem_map] at hk
+    exact hk
+  refine { tyInj := encS_inj, svInj := encS_inj, run := run1, covers := by decide, noTC := ?_, purgeKeeps := ?_, rx := ?_,
+           isQuery := ?_, query := ?_, outs := ?_, purge := ?_ }
+  · intro t addr port dataId size hasQu p' seen draws hm
+    rcases mem_ks1 hm with h | h | h | h | h | h <;> cases h <;> decide
+  · intro x hx t W hxe d g _ e _ _ i _
+    have hk := mem_ev x hx
+    rw [hxe] at hk
+    rcases mem_ks1 hk with h | h | h | h | h | h <;> cases h
+    simp
+  · intro e he heh
+    rw [dlvs_tr] at he
+    simp only [List.mem_cons, List.not_mem_nil, or_false] at he
+    rcases he with rfl | rfl | rfl | rfl | rfl | rfl | rfl | rfl | rfl | rfl | rfl | rfl <;> first
+      | (exfalso; revert heh; decide)
+      | (obtain ⟨x, hx, hxe⟩ := ex_ev (.blk (.rx 2050 1 5353 3 40 true (.query (pE 3 2050)) [] [])) (by simp [ks1])
+         exact ⟨x, hx, 1, 5353, 3, 40, true, .query (pE 3 2050), [], [], hxe, rfl, rfl, by decide⟩)
+      | (obtain ⟨x, hx, hxe⟩ := ex_ev (.blk (.rx 2070 0 5353 20 100 false .response [] [])) (by simp [ks1])
+         exact ⟨x, hx, 0, 5353, 20, 100, false, .response, [], [], hxe, rfl, rfl, by decide⟩)
+      | (obtain ⟨x, hx, hxe⟩ := ex_ev (.blk (.rx 3050 1 5353 5 60 false (.query (pE 5 3050)) [] [])) (by simp [ks1])
+         exact ⟨x, hx, 1, 5353, 5, 60, false, .query (pE 5 3050), [], [], hxe, rfl, rfl, by decide⟩)
+      | (obtain ⟨x, hx, hxe⟩ := ex_ev (.blk (.rx 7100 1 5353 6 60 false (.query (pE 6 7100)) [] [])) (by simp [ks1])
+         exact ⟨x, hx, 1, 5353, 6, 60, false, .query (pE 6 7100), [], [], hxe, rfl, rfl, by decide⟩)
+      | (obtain ⟨x, hx, hxe⟩ := ex_ev (.blk (.rx 16050 1 5353 7 60 false (.query (pE 7 16050)) [] [])) (by simp [ks1])
+         exact ⟨x, hx, 1, 5353, 7, 60, false, .query (pE 7 16050), [], [], hxe, rfl, rfl, by decide⟩)
+  · intro x hx t addr port dataId size hasQu kind seen draws hxe ty known qu hq
+    have hk := mem_ev x hx
+    rw [hxe] at hk
+    rcases mem_ks1 hk with h | h | h | h | h | h <;> cases h <;> first
+      | (exfalso; revert hq; simp [content, ann]; done)
+      | exact ⟨_, rfl⟩
+  · intro x hx t addr port dataId size hasQu p' seen draws hxe
+    have hk := mem_ev x hx
+    rw [hxe] at hk
+    rcases mem_ks1 hk with h | h | h | h | h | h <;> cases h
+    · refine ⟨[], qsQU, [], fromRegistryE _ _ qsQU [] (by intro q0 h0; simp [qsQU] at h0; subst h0; exact ⟨rfl, rfl⟩), ?_⟩
+      intro ty known qu hq
+      have : ty = encS T ∧ known = [] ∧ qu = true := by simpa [content, q] using hq
+      obtain ⟨rfl, rfl, rfl⟩ := this
+      exact itemOf1 2050 true qsQU [] [] true (by simp [qsQU]) (fun _ => rfl)
+    all_goals
+      refine ⟨[], qsQM, [kn], fromRegistryE _ _ qsQM [kn] (by intro q0 h0; simp [qsQM] at h0; subst h0; exact ⟨rfl, rfl⟩), ?_⟩
+      intro ty known qu hq
+      have : ty = encS T ∧ known = [s] ∧ qu = false := by simpa [content, q] using hq
+      obtain ⟨rfl, rfl, rfl⟩ := this
+      exact itemOf1 _ false qsQM [kn] [s] false (by simp [qsQM]) (by intro h; cases h)
+  · intro x hx _ o ho
+    exfalso
+    have hv := List.mem_map_of_mem (f := fun x : Reply.Host × KEv × Reply.StepOut => x.2.2.outs) hx
+    rw [rt1_outs] at hv
+    have : x.2.2.outs = [] := by simpa using hv
+    rw [this] at ho
+    cases ho
+  · intro x hx t W hxe i hi
+    have hk := mem_ev x hx
+    rw [hxe] at hk
+    rcases mem_ks1 hk with h | h | h | h | h | h <;> cases h
+    cases hi
+
+/-- every host of the trace is a responder run (hosts other than 0 and 1 process no delivery) -/
+theorem responders : Responders id tr 20000 := by
+  intro hid
+  by_cases h0 : hid = 0
+  · subst h0
+    exact ⟨N0, 4500, tbl, fun a => a, content, 0, ks0, hEnd0, cEnd0, rt0, rfl, responderRun0⟩
+  by_cases h1 : hid = 1
+  · subst h1
+    exact ⟨N1, 4500, [], fun a => a, content, 0, ks1, hEnd1, cEnd1, rt1, rfl, responderRun1⟩
+  refine ⟨⟨hid, encS, encS⟩, 4500, [], fun a => a, fun _ => [], 20001, [], {}, 20001, [], rfl,
+    { tyInj := encS_inj, svInj := encS_inj, run := KRun.nil _ _, covers := by decide, noTC := ?_, purgeKeeps := ?_, rx := ?_,
+      isQuery := ?_, query := ?_, outs := ?_, purge := ?_ }⟩
+  · intro _ _ _ _ _ _ _ _ _ hm; cases hm
+  · intro x hx; cases hx
+  · intro e he heh
+    exfalso
+    rw [dlvs_tr] at he
+    simp only [List.mem_cons, List.not_mem_nil, or_false] at he
+    rcases he with rfl | rfl | rfl | rfl | rfl | rfl | rfl | rfl | rfl | rfl | rfl | rfl <;> simp at heh <;> omega
+  · intro x hx; cases hx
+  · intro x hx; cases hx
+  · intro x hx; cases hx
+  · intro x hx; cases hx
+
+
+/-! #### the browser over the cache of its host -/
+
+/-- the pointer record host 1 caches at 2070 ms -/
+def pr : Rec := ⟨T, 12, 1, false, 4500, 2070, .ptr A⟩
+def aliasOf (σ : Link.Svc) : String := if σ = s then A else "-"
+
+theorem cacheRun : CacheRun tr 20000 2000 b := by
+  refine ⟨⟨id, fun n => [n], [T], T, aliasOf, [], [.datagram 2070 [pr]], by simp, ?_, ?_, by decide, by decide, by decide⟩⟩
+  · refine ⟨⟨by decide, by decide⟩, ?_⟩
+    intro ev hev
+    simp only [List.nil_append, List.mem_singleton] at hev
+    subst hev
+    constructor
+    · intro r' hr' _
+      simp only [List.mem_singleton] at hr'; subst hr'
+      exact Or.inl ⟨⟨_, rfl⟩, rfl, by simp [pr]⟩
+    · intro r1 h1 r2 h2 a a' _ _ hl; exact hl
+  · intro σ ev hev
+    simp only [List.nil_append, List.cons_append, List.mem_cons, List.not_mem_nil, or_false] at hev
+    rcases hev with rfl | rfl
+    · trivial
+    · intro u hu huniq
+      simp only [List.mem_singleton] at hu
+      subst hu
+      cases huniq
+
+theorem caches : ∀ x ∈ browses tr, CacheRun tr 20000 x.1 x.2 := by
+  intro x hx
+  have : browses tr = [(2000, b)] := by decide
+  rw [this] at hx
+  simp only [List.mem_singleton] at hx
+  subst hx
+  exact cacheRun
+
+/-- **all hypotheses of `C07_convergence_from_models_partial` at once**: this trace — one registering host, one browsing host that
+sends its own questions — satisfies WF, K7, K3b and is, host by host and browser by browser, the projection of runs of the C08/C09
+machine, C10's scheduler, the C11/C12 reply model fed by C03, and the C04 browser over the C05/C06 cache -/
+theorem fromModels : C07_ContractsFromModels id tr 20000 where
+  wf := contracts.wf
+  k7 := contracts.k7
+  k3b := contracts.k3b
+  hosts := hosts
+  browsers := browsers
+  responders := responders
+  caches := caches
+
+/-- … so the theorem applies and its conclusion is the non-trivial one: the browser on host 1 reports the registered instance -/
+example : live tr b s = true :=
+  (C07_convergence_from_models_partial id tr 20000 fromModels (by decide) 2000 b (by decide) (by decide) s).trans (by decide)
+
+end C07ex5
 
 end Zc
